@@ -3,6 +3,10 @@
 package main
 
 import (
+	"sync/atomic"
+	"strconv"
+	"net"
+	"io"
 	"bufio"
 	"fmt"
 	"net/http"
@@ -103,6 +107,10 @@ func TestVerifDriver(t *testing.T) {
 			res = ftOp(w[1:])
 		} else if len(w) >= 2 && w[0] == "px" {
 			res = pxOp(w[1:])
+		} else if len(w) == 4 && w[0] == "wshold" {
+			hs, _ := strconv.Atoi(w[2])
+			hm, _ := strconv.Atoi(w[3])
+			res = wsHold(w[1], hs, hm)
 		} else if len(w) == 3 && w[0] == "ws" {
 			res = wsSession(w[1], w[2])
 		} else if len(w) >= 2 && (w[0] == "cfg" || w[0] == "cfgfile") {
@@ -145,6 +153,51 @@ func TestVerifDriver(t *testing.T) {
 					} else {
 						res = "err"
 					}
+				}
+			case "burst":
+				// id burst <n> <workers>: n requests without identifiers, from <workers> goroutines
+				// at once; every generated request / trace identifier must be distinct
+				if len(w) == 4 && handler != nil {
+					n, _ := strconv.Atoi(w[2])
+					workers, _ := strconv.Atoi(w[3])
+					if n < 1 || n > 200000 || workers < 1 || workers > 64 {
+						break
+					}
+					var bmu sync.Mutex
+					seenIDs := map[string]int{}
+					var next int64
+					var wg sync.WaitGroup
+					for g := 0; g < workers; g++ {
+						wg.Add(1)
+						go func() {
+							defer wg.Done()
+							local := []string{}
+							for atomic.AddInt64(&next, 1) <= int64(n) {
+								req := httptest.NewRequest("GET", "/p", nil)
+								req.RemoteAddr = "10.0.0.9:1234"
+								rec := httptest.NewRecorder()
+								handler.ServeHTTP(rec, req)
+								for _, nm := range names {
+									if v := rec.Header().Get(nm); v != "" {
+										local = append(local, nm+"="+v)
+									}
+								}
+							}
+							bmu.Lock()
+							for _, v := range local {
+								seenIDs[v]++
+							}
+							bmu.Unlock()
+						}()
+					}
+					wg.Wait()
+					d := 0
+					for _, c := range seenIDs {
+						if c > 1 {
+							d += c - 1
+						}
+					}
+					res = fmt.Sprintf("burst ids=%d dups=%d", len(seenIDs)+d, d)
 				}
 			case "req":
 				// id req <rid|-|none> <trace|-|none> <key|-> <bodylen> <eject 0|1>
@@ -288,6 +341,86 @@ func loadAndStart(path string) (res string) {
 // wsSession: a WebSocket session through the real handler composition with the given plugin
 // chain; every message (sizes given, text/binary alternating) must come back unmodified and
 // in order from the echo backend, and closing the client side must close the backend side.
+// wsHold: a WebSocket session that outlives the end-to-end handler timeout. The handshake is
+// written by hand so that the Connection header can be any of the token lists browsers send
+// ("keep-alive, Upgrade"); after <holdMs> of silence one text message must still be echoed.
+func wsHold(variant string, handlerSec, holdMs int) string {
+	connHdr := map[string]string{"upgrade": "Upgrade", "lower": "upgrade", "ka-upgrade": "keep-alive, Upgrade",
+		"upgrade-ka": "Upgrade, keep-alive"}[variant]
+	if connHdr == "" {
+		return "bad-op"
+	}
+	up := websocket.Upgrader{}
+	backend := httptest.NewServer(http.HandlerFunc(func(w http.ResponseWriter, r *http.Request) {
+		c, err := up.Upgrade(w, r, nil)
+		if err != nil {
+			return
+		}
+		defer c.Close()
+		for {
+			mt, msg, err := c.ReadMessage()
+			if err != nil {
+				return
+			}
+			if err := c.WriteMessage(mt, msg); err != nil {
+				return
+			}
+		}
+	}))
+	defer backend.Close()
+	cfg := &config.Config{}
+	cfg.LoadBalancer.Strategy = "round_robin"
+	cfg.Backends = []config.BackendConfig{{Name: "b0", Address: backend.URL}}
+	cfg.Server.Timeouts.Handler = handlerSec
+	cfg.Plugins.Enabled = true
+	cfg.Plugins.Chain = []config.PluginConfig{{Name: "logging"}, {Name: "size_limit", Config: map[string]interface{}{}}}
+	lb, err := loadbalancer.NewLoadBalancer(cfg)
+	if err != nil {
+		return "ws setup-error"
+	}
+	defer lb.Stop()
+	h, err := buildHandler(cfg, lb)
+	if err != nil {
+		return "ws setup-error"
+	}
+	front := httptest.NewServer(h)
+	defer front.Close()
+	c, err := net.DialTimeout("tcp", front.Listener.Addr().String(), time.Second)
+	if err != nil {
+		return "ws dial-failed"
+	}
+	defer c.Close()
+	_ = c.SetDeadline(time.Now().Add(time.Duration(holdMs)*time.Millisecond + 4*time.Second))
+	fmt.Fprintf(c, "GET /ws HTTP/1.1\r\nHost: verif.test\r\nUpgrade: websocket\r\nConnection: %s\r\nSec-WebSocket-Key: dGhlIHNhbXBsZSBub25jZQ==\r\nSec-WebSocket-Version: 13\r\n\r\n", connHdr)
+	br := bufio.NewReader(c)
+	resp, err := http.ReadResponse(br, nil)
+	if err != nil || resp.StatusCode != 101 {
+		code := 0
+		if resp != nil {
+			code = resp.StatusCode
+		}
+		return fmt.Sprintf("ws handshake-failed status=%d", code)
+	}
+	time.Sleep(time.Duration(holdMs) * time.Millisecond)
+	payload := []byte("still here")
+	frame := []byte{0x81, 0x80 | byte(len(payload)), 1, 2, 3, 4}
+	for i, b := range payload {
+		frame = append(frame, b^frame[2+i%4])
+	}
+	if _, err := c.Write(frame); err != nil {
+		return "ws write-failed after hold"
+	}
+	head := make([]byte, 2)
+	if _, err := io.ReadFull(br, head); err != nil {
+		return "ws closed-by-proxy after hold: " + strings.ReplaceAll(err.Error(), " ", "_")
+	}
+	got := make([]byte, int(head[1]&0x7f))
+	if _, err := io.ReadFull(br, got); err != nil || string(got) != string(payload) {
+		return "ws echo mismatch after hold"
+	}
+	return "ws ok 1"
+}
+
 func wsSession(chain, sizes string) string {
 	up := websocket.Upgrader{}
 	backendClosed := make(chan struct{})
